@@ -858,6 +858,11 @@ class Model:
                         der_states[expr.name()] = Variable(der_sym, float)
                         return der_sym
                     else:
+                        # A variable that has been eliminated already (its definition came
+                        # earlier in the equation list): differentiate its definition.
+                        for var, val in zip(variables, values):
+                            if var.name() == expr.name():
+                                return get_derivative(ca.MX(val))
                         return 0.0
                 else:
                     # Differentiate using CasADi and chain rule
